@@ -376,7 +376,7 @@ func (e *Executor) startExecution(ctx context.Context, t *ast.Task, execute func
 
 	e.executionHashesMutex.Lock()
 
-	if otherExecutionCtx, ok := e.executionHashes[h]; ok {
+	if otherExecution, ok := e.executionHashes[h]; ok {
 		e.executionHashesMutex.Unlock()
 		e.Logger.VerboseErrf(logger.Magenta, "task: skipping execution of task: %s\n", h)
 
@@ -384,17 +384,21 @@ func (e *Executor) startExecution(ctx context.Context, t *ast.Task, execute func
 		reacquire := e.releaseConcurrencyLimit()
 		defer reacquire()
 
-		<-otherExecutionCtx.Done()
-		return nil
+		// Wait for the other execution to finish and share its outcome
+		<-otherExecution.done
+		return otherExecution.err
 	}
 
 	ctx, cancel := context.WithCancel(ctx)
 	defer cancel()
 
-	e.executionHashes[h] = ctx
+	thisExecution := &execution{done: make(chan struct{})}
+	e.executionHashes[h] = thisExecution
 	e.executionHashesMutex.Unlock()
 
-	return execute(ctx)
+	thisExecution.err = execute(ctx)
+	close(thisExecution.done)
+	return thisExecution.err
 }
 
 // FindMatchingTasks returns a list of tasks that match the given call. A task
